@@ -1,8 +1,8 @@
 (* Gen/GenC15.v - the C15 allocation stream: every path made only of struct fields, non-nil
    pointers and struct-slice indices ([live_loc] of Spec/GetSpec.v) on the value variants of
    every emit unit, ending at a scalar / string / bytes element (GetTo, Compare, Length,
-   Capacity, DeepEqual, SetWithBuffer) or at a slice (Loop).  The demand is zero heap
-   allocations; there is no model of the Go compiler's escape analysis: this part of the
+   Capacity, DeepEqual, SetWithBuffer) or at a slice (Loop), with the object handed in as *T and
+   as **T (and, where the property is silent, by value).  The demand is zero heap allocations; there is no model of the Go compiler's escape analysis: this part of the
    property is measured, not proved. *)
 From Coq Require Import List Bool String Ascii ZArith Arith.
 From Verif Require Import Util Ints Node GoSrc Value Outcome Nav Shapes EnumVal GenUnits GenC10 GetSpec.
@@ -19,7 +19,56 @@ Definition is_leaf_node (en : node) : bool :=
 Definition is_slice_node (en : node) : bool :=
   match n_typ en with typeSlice => negb (String.eqb (n_typn en) "[]byte") | _ => false end.
 
-Definition case_lines (u : string * ty) : list string :=
+(* The three argument forms a generated inspector accepts for the object (compiler.go, the
+   cast in every method header): T by value, *T and **T.  "Reading through a pointer" of the
+   property text is *T and **T: each measurement is made with the object handed in in both
+   pointer forms (one case, one block of counts per form) and the demand is zero in both.
+   Handed in by value the object is copied by the cast; the property text says nothing about
+   that form (spec "*").  It is still measured, on the first element case and the first slice
+   case of every unit (the cast belongs to the method header: one per type), and the unchanged
+   code is predicted: the reference GetTo returns points into the private copy, which has to
+   outlive the call - one allocation -, the other reads leave the copy on the stack.
+   SetWithBuffer by value writes into that private copy (a lost update, not a read): whether
+   the copy reaches the heap there is the escape analysis' choice per type - not measured. *)
+Definition ptr_forms : list string := ["p"; "pp"].
+
+Definition zero_counts (kind : string) : string :=
+  if String.eqb kind "slice" then "loop=0"
+  else if String.eqb kind "read" then "getto=0;cmp=0;len=0;cap=0;deq=0"
+  else "getto=0;cmp=0;len=0;cap=0;deq=0;set=0".
+
+(* what the unchanged code does, per form *)
+Definition measured (form kind : string) : string :=
+  if String.eqb form "v" then
+    (if String.eqb kind "slice" then "loop=0" else "getto=1;cmp=0;len=0;cap=0;deq=0")
+  else zero_counts kind.
+
+(* what the property text demands, per form: zero through a pointer, nothing by value *)
+Definition demand (form kind : string) : option string :=
+  if String.eqb form "v" then None else Some (zero_counts kind).
+
+Definition blocks (forms : list string) (f : string -> string) : string :=
+  match forms with
+  | [x] => f x
+  | _ => join "|" (map (fun x => x ++ ":" ++ f x) forms)
+  end.
+
+Definition spec_of (forms : list string) (kind : string) : string :=
+  if forallb (fun x => match demand x kind with Some _ => true | None => false end) forms
+  then blocks forms (fun x => match demand x kind with Some d => d | None => "*" end)
+  else "*".
+
+Definition mk_case (u : string * ty) (vi : nat) (v : val) (path : list string) (en : node)
+    (forms : list string) (kind : string) (tags : string) : string :=
+  fst u ++ "." ++ nat_to_string vi ++ "." ++ kind ++ "." ++ path_text path ++
+    (if forallb (fun x => existsb (String.eqb x) ptr_forms) forms then "" else "." ++ join "+" forms) ++ tab ++
+  "allocs," ++ tags ++ tab ++
+  fst u ++ ";" ++ join "+" forms ++ ";allocs;" ++ kind ++ ";" ++ path_text path ++ ";" ++
+    path_text [operand_for en] ++ ";" ++ pr_val true v ++ tab ++
+  blocks forms (fun x => measured x kind) ++ tab ++ spec_of forms kind.
+
+(* the measurable cases of a unit: (is a slice, variant index, value, path, element node) *)
+Definition unit_points (u : string * ty) : list (bool * (nat * val * list string * node)) :=
   let n := root_node u in
   flat_map (fun iv : nat * val =>
     let '(vi, v) := iv in
@@ -30,17 +79,22 @@ Definition case_lines (u : string * ty) : list string :=
         match strip_ptrs 3 ev with
         | None => []
         | Some _ =>
-          let mk (kind expect : string) :=
-            [fst u ++ "." ++ nat_to_string vi ++ "." ++ kind ++ "." ++ path_text path ++ tab ++
-             "allocs," ++ kind ++ tab ++
-             fst u ++ ";p;allocs;" ++ kind ++ ";" ++ path_text path ++ ";" ++ path_text [operand_for en] ++ ";" ++ pr_val true v ++ tab ++
-             expect ++ tab ++ expect] in
-          if is_leaf_node en then mk "leaf" "getto=0;cmp=0;len=0;cap=0;deq=0;set=0"
-          else if is_slice_node en then mk "slice" "loop=0"
+          if is_leaf_node en then [(false, (vi, v, path, en))]
+          else if is_slice_node en then [(true, (vi, v, path, en))]
           else []
         end
       | _, _, _ => []
       end) (paths n v))
   (combine (seqn (List.length (variants n))) (variants n)).
+
+Definition case_lines (u : string * ty) : list string :=
+  let pts := unit_points u in
+  let line (forms : list string) (byvalue : bool) (p : bool * (nat * val * list string * node)) :=
+    let '(sl, (vi, v, path, en)) := p in
+    if sl then mk_case u vi v path en forms "slice" (if byvalue then "slice,byvalue" else "slice")
+    else if byvalue then mk_case u vi v path en forms "read" "read,byvalue"
+    else mk_case u vi v path en forms "leaf" "leaf" in
+  let first (sl : bool) := match find (fun p => Bool.eqb (fst p) sl) pts with Some p => [p] | None => [] end in
+  map (line ptr_forms false) pts ++ map (line ["v"] true) (first false ++ first true).
 
 Definition cases (tier : Z) (seed : Z) : list string := flat_map case_lines (emit_units tier).
